@@ -93,8 +93,10 @@ class AliasedQuery(Selectable):
         :return:
             A copy of the aliased query with the tables replaced.
         """
-        if self.query is not None:
-            self.query = self.query.replace_table(current_table, new_table)  # type:ignore[operator]
+        if isinstance(self.query, (QueryBuilder, _SetOperation)):
+            self.query = self.query.replace_table(current_table, new_table)
+        elif self.query is not None and self.query == current_table:
+            self.query = new_table
 
     def __eq__(self, other: Any) -> bool:
         return isinstance(other, AliasedQuery) and self.name == other.name
